@@ -236,7 +236,9 @@ class Builder:
         if self.source is not None:
             have = len(self.source) * 8
             if self.w.n + width > have:
-                raise Short(key, name, self.w.n + width, have)
+                ex = Short(key, name, self.w.n + width, have)
+                ex.m_gt_n = any(m > n for n, m, _, _ in self.meta.get("layers", []))
+                raise ex
             raw = B.get_bits(self.source, self.w.n, width)
             if key in ("DF394", "DF395"):
                 role = "mask"
